@@ -1,6 +1,7 @@
 """C08 - IT blocks.  (a) ITAdvance on all 256 ITSTATE values; (b)+(c) co-simulation of IT programs: every legal
 (firstcond, mask) x every NZCV x every sequence over an instruction menu (16-bit flag-setting ALU op, 32-bit ALU op,
-CMP that changes the flags mid-block, branch as last instruction, SVC, UDF, alignment-faulting load), with exception
+CMP that changes the flags mid-block, 32-bit MSR APSR (miscellaneous-control space), branch as last instruction, SVC, UDF,
+alignment-faulting load), with exception
 handlers that return into the block; the reference stepper (ref.model) and the emulator are compared after EVERY step
 on the whole snapshot (which slots executed, flags untouched by 16-bit ALU ops inside the block, ITSTATE after each
 instruction and empty after the last, IT saved/cleared on exception entry and restored on return)."""
@@ -32,6 +33,8 @@ def menu(slot):
         ("ldr-fault", 16, 0x682E),                             # LDR r6,[r5] with r5 unaligned, SCTLR.A=1
         ("smc", 32, 0xF7F08000),                               # SMC (only legal as the last instruction of the block)
         ("branch", 16, 0xE000),                                # B .+4 (only legal as the last instruction)
+        # 32-bit miscellaneous-control space (hw1 = 11110x111xxx, next to B<c>.W which carries its own condition)
+        ("msr32", 32, 0xF3808800 | ((1 + slot % 4) << 16)),    # MSR APSR_nzcvq,Rn: rewrites the flags mid-block
     ]
 
 
@@ -62,7 +65,7 @@ def plan(tier):
         "rule": "for every legal (firstcond, mask) [%d pairs] x all 16 NZCV x every instruction sequence of length "
                 "block length + 1 over the menu: co-simulate ref.model.step and emulate_cycle, compare the whole snapshot "
                 "after every step (handlers at the vectors return with SUBS PC,LR); state = (itstate, nzcv, sequence, step)" % len(its),
-        "bounds": {"menu": [m[0] for m in menu(0)][:6] + ["branch (last slot only)"], "quick_menu": "all 6 items for block length <= 2, first 3 for longer blocks", "it_pairs": len(its), "nzcv": "8 values on which every condition takes both outcomes (quick), all 16 (thorough)",
+        "bounds": {"menu": [m[0] for m in menu(0)][:6] + ["msr32", "branch / smc (last slot only)"], "quick_menu": "all 7 items for block length <= 2, first 3 for longer blocks", "it_pairs": len(its), "nzcv": "8 values on which every condition takes both outcomes (quick), all 16 (thorough)",
                    "steps_per_program": "block length + 1 instruction after the block + handler returns (cap 12)",
                    "after_block_slot": "all menu items for block length <= 3; {alu16, alu32, svc} after a 4-instruction block"},
         "exhaustive": True,
@@ -129,6 +132,8 @@ def programs(res, fc, mask, per, tier="quick"):
     slots = []
     for s in range(n + 1):
         m = menu(s)[:min(per, 6)]
+        if per > 3:
+            m = m + [menu(s)[8]]
         if s == n - 1 and have_branch and per >= 3:
             m = m + [menu(s)[7], menu(s)[6]]
         if s == n == 4 and per > 3:
